@@ -515,7 +515,79 @@ def route_ov_vf(v):
     return ku.run(go())
 
 
-ROUTES = {"unit": route_unit, "vf": route_vf, "rf": route_rf, "wf": route_wf}
+STATE_STEPS = ["vf-no-return", "rf-no-return", "empty-foreach", "sub-workflow-empty-state", "vf-map", "foreach-two",
+               "sub-workflow-with-state", "rf-with-return"]
+
+
+def route_wf_state(v):
+    """the literal in the `state` block of eight Ok steps whose Logic returns, in turn: null (a ValueFunction with a
+    precondition but no `return`), null (a read-only ResourceFunction without `return`), [] (an empty forEach),
+    {} (a sub-workflow with empty state), and the truthy counterparts (map, two-element list, non-empty state,
+    a ResourceFunction `return`).  Every literal must be in Result.state."""
+    import celpy
+    import cluster
+    import koreo_util as ku
+    from koreo.cel.encoder import convert_bools
+    from koreo.workflow.reconcile import reconcile_workflow
+
+    ku.reset()
+    cl = cluster.Cluster()
+    cl.put("v1", "configmaps", "ns", "c11-live", {"apiVersion": "v1", "kind": "ConfigMap",
+                                                  "metadata": {"name": "c11-live", "namespace": "ns"}, "data": {"k": "v"}})
+    crd = {"apiGroup": "c11.koreo.dev", "version": "v1", "kind": "T"}
+    api_config = {"apiVersion": "v1", "kind": "ConfigMap", "plural": "configmaps", "name": "c11-live", "namespace": "ns",
+                  "owned": False, "readonly": True}
+
+    async def need(x, what):
+        if _obs(x) != "ok":
+            raise Infra(f"fixture {what} does not prepare: {getattr(x, 'message', x)}")
+        return x
+
+    async def go():
+        await need(await ku.offer_value_function("c11-check", {"preconditions": [
+            {"assert": "=inputs.size > 0", "permFail": {"message": "size"}}]}), "c11-check")
+        await need(await ku.offer_value_function("c11-echo", {"return": {"got": "=inputs.lit"}}), "c11-echo")
+        await need(await ku.offer_resource_function("c11-read", {"apiConfig": api_config, "resource": {}}), "c11-read")
+        await need(await ku.offer_resource_function("c11-read-ret", {"apiConfig": api_config, "resource": {},
+                                                                      "return": {"name": "=resource.metadata.name"}}),
+                   "c11-read-ret")
+        await need(await ku.offer_workflow("c11-sub-empty", {"crdRef": crd, "steps": [
+            {"label": "inner", "ref": {"kind": "ValueFunction", "name": "c11-echo"}, "inputs": {"lit": 1}}]}), "c11-sub-empty")
+        await need(await ku.offer_workflow("c11-sub-state", {"crdRef": crd, "steps": [
+            {"label": "inner", "ref": {"kind": "ValueFunction", "name": "c11-echo"}, "inputs": {"lit": 1},
+             "state": {"inner": "x"}}]}), "c11-sub-state")
+        logic = {
+            "vf-no-return": {"ref": {"kind": "ValueFunction", "name": "c11-check"}, "inputs": {"size": 7}},
+            "rf-no-return": {"ref": {"kind": "ResourceFunction", "name": "c11-read"}},
+            "empty-foreach": {"ref": {"kind": "ValueFunction", "name": "c11-echo"},
+                              "forEach": {"itemIn": "=[]", "inputKey": "lit"}},
+            "sub-workflow-empty-state": {"ref": {"kind": "Workflow", "name": "c11-sub-empty"}},
+            "vf-map": {"ref": {"kind": "ValueFunction", "name": "c11-echo"}, "inputs": {"lit": 1}},
+            "foreach-two": {"ref": {"kind": "ValueFunction", "name": "c11-echo"},
+                            "forEach": {"itemIn": "=[1, 2]", "inputKey": "lit"}},
+            "sub-workflow-with-state": {"ref": {"kind": "Workflow", "name": "c11-sub-state"}},
+            "rf-with-return": {"ref": {"kind": "ResourceFunction", "name": "c11-read-ret"}},
+        }
+        steps = [{"label": f"step{i}", **logic[name], "state": {f"st{i}": v}} for i, name in enumerate(STATE_STEPS)]
+        wf = await ku.offer_workflow("c11-wf-state", {"crdRef": crd, "steps": steps})
+        if _obs(wf) != "ok":
+            return ("prepare-" + _obs(wf), None)
+        res = await reconcile_workflow(api=cl, workflow_key="c11-wf-state", owner=("ns", dict(ku.OWNER_REF)),
+                                       trigger=celpy.json_to_cel({}), workflow=wf)
+        if _obs(res.result) != "ok":
+            return ("reconcile-" + _obs(res.result), None)
+        if res.state_errors:
+            return ("state-error", None)
+        st = convert_bools(res.state)
+        if not isinstance(st, dict):
+            return ("bad-shape", None)
+        return ("ok", {f"state of step `{name}`": st.get(f"st{i}", "<missing from Result.state>")
+                       for i, name in enumerate(STATE_STEPS)})
+
+    return ku.run(go())
+
+
+ROUTES = {"unit": route_unit, "vf": route_vf, "rf": route_rf, "wf": route_wf, "wf-state": route_wf_state}
 OV_ROUTES = {"ov-rf": route_ov_rf, "ov-create": route_ov_create, "ov-vf": route_ov_vf}
 ALL_ROUTES = {**ROUTES, **OV_ROUTES}
 
@@ -886,9 +958,12 @@ def run(tier: str) -> int:
         rule="JSON values of depth 0-3 biased to hard strings (every ASCII control and punctuation character, escape "
              "look-alikes, quote runs of 1-4 at start/middle/end, numerals and one-edit near-numerals, Unicode digits, "
              "blanks, empty containers, int64 extremes, floats k/8): exact text of encode_cel vs the model; celpy vs the "
-             "model lexer on the emitted literals and on hand-built literal texts; the real pipeline on four routes "
+             "model lexer on the emitted literals and on hand-built literal texts; the real pipeline on five routes "
              "(expression, ValueFunction return/locals, ResourceFunction resource/overlay POST body, Workflow "
-             "inputs/state). non-trivial = strings containing a quote, backslash, newline, CR, tab or non-ASCII "
+             "inputs/state, Workflow `state` of eight Ok steps whose Logic returns null, null, [], {} and their truthy "
+             "counterparts) and, for written overlay leaves incl. {} [] \"\", on three overlay-onto-base routes "
+             "(overlays[].overlay, create.overlay, ValueFunction return on a base) over bases holding non-empty "
+             "maps/lists/scalars. non-trivial = strings containing a quote, backslash, newline, CR, tab or non-ASCII "
              "character, non-empty containers, literal texts; distinct by value/text",
     )
 
@@ -928,7 +1003,7 @@ def search(ck, quick_budget: bool, salt: str = ""):
         used: set = set()
         composite = {gen_key(r, used): b for b in batch[:3]}
         composite["list"] = batch[3:]
-        for route in ("vf", "rf", "wf"):
+        for route in ("vf", "rf", "wf", "wf-state"):
             ck.count(f"oracle:{route}")
             if in_domain(composite):
                 oracle_batch_e2e(ck, composite, route)
